@@ -1067,6 +1067,12 @@ class AttrParser(BaseParser):
                 pos,
                 self.pos,
             )
+        if isinstance(element_type, IntegerType) and element_type.bitwidth > 64:
+            self.raise_error(
+                "dense array integer element type must be at most 64 bits wide",
+                pos,
+                self.pos,
+            )
 
         # Empty array
         if self.parse_optional_punctuation(">"):
